@@ -228,6 +228,27 @@ theorem tryFromIter_order_irrelevant (a b : List (Str × Str)) (hperm : a.Perm b
   subst this
   exact ⟨qa, a1, b1⟩
 
+/-- double-ended iteration (`next()` / `next_back()` in any alternation — here strictly alternating)
+yields every stored pair exactly once -/
+theorem double_ended_iteration_complete (q : Quals) : (endsAux q.length q).Perm q := by
+  have key : ∀ n (l : Quals), l.length = n → (endsAux n l).Perm l := by
+    intro n
+    induction n with
+    | zero =>
+      intro l hl
+      have : l = [] := List.length_eq_zero_iff.1 hl
+      subst this
+      exact List.Perm.refl _
+    | succ k ih =>
+      intro l hl
+      cases l with
+      | nil => simp at hl
+      | cons x xs =>
+        simp only [endsAux]
+        have hx : xs.reverse.length = k := by simpa using hl
+        exact List.Perm.cons x ((ih xs.reverse hx).trans (List.reverse_perm xs))
+  exact key q.length q rfl
+
 /-- Every stored pair is retrievable by its key, and the keys are strictly ascending. -/
 theorem stored_pairs (q : Quals) (hq : QInv q) :
     (∀ k v, (k, v) ∈ q → q.get U k = .ok (some v)) ∧ q.Pairwise (fun a b => cmpStr a.1 b.1 = .lt) := by
